@@ -39,9 +39,13 @@ func TestPropControlPlane(t *testing.T) {
 		nmac := rapid.IntRange(2, 4).Draw(rt, "nmac")
 		for i := 0; i < nmac; i++ {
 			m := genMAC(rt, "mac")
-			for j := range tc.Macs { // distinct MACs
-				if string(tc.Macs[j]) == string(m) {
-					m[5] ^= byte(i + 1)
+			for again := true; again; { // distinct MACs (also after shrinking towards all-zero)
+				again = false
+				for j := range tc.Macs {
+					if string(tc.Macs[j]) == string(m) {
+						m[5]++
+						again = true
+					}
 				}
 			}
 			tc.Macs = append(tc.Macs, m)
